@@ -148,6 +148,8 @@ package ro
 
 //@ func NewSubscription
 //@   props C03
+//@   modular
+//@   ensures [never-nil|C03] result != nil
 //@   ensures [starts-open|C03] result.done == false
 //@   ensures [holds-initial-teardown|C03] len(result.finalizers) == ite(teardown == nil, 0, 1)
 //@   ensures [initial-teardown-first|C03] teardown != nil ==> result.finalizers[0] == teardown
